@@ -72,6 +72,12 @@ CLAIMS["C09"] = dict(
    note=TRUST + ". Assumed: the bbolt bucket model; that the error sink, symbol evaluation (EntitySymbol.Eval, runtime set symbols) and filter evaluation inside newFilteredCursor only read the database; uniqueIndex: the index bucket exists (it is created by Initialize; when it is missing, getIndexBucket creates it even in check mode - outside the property's corruption classes, recorded in DESIGN.md). Panic-freedom of the checkers and the cursor-protocol preconditions inside them are not part of this claim (waived, listed per run).",
    technique="contract-based deductive verification: frame-style postcondition over a ghost bucket model, loop invariants, callback precondition via a ghost flag, SMT")
 
+CLAIMS["C08"] = dict(
+   text="Per-operation registration and delivery protocol, proved on the real code over a ghost model of bbolt's commit handlers (ocCnt/ocFn/ocRecv: how many callbacks a transaction holds, which function, which receiver; private ghosts that only Tx.OnCommit's trusted contract changes, so every function that does not name them is proved - or for trusted callees assumed - to register nothing). fireEvents: the pre-commit constraints run first; if none objects exactly one post-commit delivery of this very state (processPostCommit bound to it) is registered on the context's transaction, if one objects nothing is. fireParentEvent: a store without parent registers nothing; a child store registers exactly one delivery, of a fresh parent state that took the child flow's context, kind and id. Create / Update: on success exactly one delivery of the store's own change (kind created / updated, context the caller's, for update the initial state read before the write) is the last registration, preceded by exactly one for the parent store iff there is one, other transactions untouched. DeleteById: every change flow (one per child store holding the entity, then the store's own) is fired exactly once, in order. processPostCommit (callable only with the `committed` permission, see C07): every constraint of the store's snapshot is told once, in order, with this state. The three listener adapters: the listener is invoked once per entry of changeTypes matching the state's kind (spawned or not), with the final state for create/update and the initial state for delete (recursive count spec, loop invariants; go statements modelled as a call at the spawn point). mutateContext.setTx registers the commit handler once per bound transaction; DbImpl.Update's closure registers the tx-complete callback last when listeners exist. 'No events for undone work' is C07's error-flow + bbolt's rollback.",
+   design="5/C08",
+   note=TRUST + ". Assumed: bbolt runs each registered commit handler once, in order, after a successful commit and never after a rollback; a change state's context, kind, id, initial and final state and a store's parent are not rewritten once filled (declared immutable; the three fill sites init / initFromChild / loadFinalState are waived as two-step construction); listeners and constraints do not themselves register commit handlers unless their contract says so. Not proved: that handleCommit runs each commit action once (dynamic calls through a slice of functions have no contract); DbImpl.Batch (registers no tx-complete listener at all); ordering/timing of spawned deliveries.",
+   technique="contract-based deductive verification: ghost registration log with private-ghost frames, postconditions on the real CRUD functions, recursive count spec for adapters, SMT")
+
 NA = {
  "C12": "not applicable to contract-based verification of the repository's Go code: how 'a and b or c', parentheses, keyword case and whitespace group is decided by ANTLR's ATN interpreter (AdaptivePredict) running the serialized grammar embedded in zitiql_parser.go; the generated Go functions are a table-driven shell around it, so no precondition/postcondition on a repository function can state 'the tree for this text is that tree', and the ANTLR tool needed to regenerate or analyse the grammar is not available here. (The listener half - each connective node evaluates as its connective - is contract-shaped and is part of the C10 sweep's dispatch contracts.) Observed while reading: 'a and b or c' groups as 'a and (b or c)'; recorded in DESIGN.md section 7 for the maintainers.",
  "C17": "not applicable: equality of the whole database across close/rename/reopen, what concurrent transactions observe during the swap, and restore listeners firing after the swap are file-system and schedule properties of bbolt and the OS (os.Rename, file locks, goroutines); contracts over single calls of repository functions cannot express them, and the only contract-shaped fragment (DbImpl.GetTimelineId's flag logic) does not decide the property.",
